@@ -53,6 +53,23 @@ def build_replay(profile='dev'):
         raise Inconclusive('native replay crate failed to build against /repo')
     return os.path.join(CACHE, 'replay-target', 'debug' if profile == 'dev' else 'release', 'wac-verif-replay')
 
+_FS = {}
+def fs_replay(features):
+    """client of the C18 replay binary built with the given wac-resolver feature (none | wat | wit)"""
+    key = features or 'none'
+    if key in _FS and _FS[key].p is not None and _FS[key].p.poll() is None: return _FS[key]
+    d = os.path.join(VERIF, 'fsreplay'); lock = os.path.join(d, 'Cargo.lock')
+    if not os.path.exists(lock):
+        import shutil; shutil.copy(os.path.join(VERIF, 'replay', 'Cargo.lock'), lock)
+    env = dict(os.environ); env['CARGO_NET_OFFLINE'] = 'true'; env.pop('RUSTFLAGS', None)
+    env['CARGO_TARGET_DIR'] = os.path.join(CACHE, f'fsreplay-target-{key}')
+    cmd = ['cargo', 'build', '--offline', '-q'] + (['--features', features] if features else [])
+    r = subprocess.run(cmd, cwd=d, env=env, stdout=subprocess.PIPE, stderr=subprocess.PIPE)
+    if r.returncode != 0:
+        sys.stderr.write(r.stderr.decode(errors='replace')[-3000:]); raise Inconclusive('fsreplay crate failed to build against /repo')
+    c = Replay.__new__(Replay); c.bin = os.path.join(env['CARGO_TARGET_DIR'], 'debug', 'wac-verif-fsreplay'); c.p = None; c.n = 0
+    _FS[key] = c; return c
+
 class Check:
     def __init__(s, pid, argv=None):
         s.pid = pid
@@ -124,6 +141,7 @@ class Check:
         return s._replay
     def native(s, obj):
         s.replayed += 1
+        if obj.get('op') == 'fs_resolve': return fs_replay(obj.get('features') or '').ask(obj)
         return s.replay().ask(obj)
 
     # ---- results
